@@ -1570,8 +1570,10 @@ func (m *batchLocateRangesMerger) appendRegion(uncachedRegion *Region) {
 		return
 	}
 	for ; m.cachedIdx < len(m.cachedRegions); m.cachedIdx++ {
-		if m.lastEndKey != nil && bytes.Compare(*m.lastEndKey, m.cachedRegions[m.cachedIdx].EndKey()) >= 0 {
+		if m.lastEndKey != nil && len(m.cachedRegions[m.cachedIdx].EndKey()) > 0 &&
+			bytes.Compare(*m.lastEndKey, m.cachedRegions[m.cachedIdx].EndKey()) >= 0 {
 			// skip the cached region that is covered by the uncached region.
+			// (a cached region with an empty end key reaches +inf and is never covered.)
 			continue
 		}
 		if bytes.Compare(m.cachedRegions[m.cachedIdx].StartKey(), uncachedRegion.StartKey()) >= 0 {
@@ -1586,8 +1588,10 @@ func (m *batchLocateRangesMerger) appendRegion(uncachedRegion *Region) {
 func (m *batchLocateRangesMerger) build() []*KeyLocation {
 	// append the rest cache hit regions
 	for ; m.cachedIdx < len(m.cachedRegions); m.cachedIdx++ {
-		if m.lastEndKey != nil && bytes.Compare(*m.lastEndKey, m.cachedRegions[m.cachedIdx].EndKey()) >= 0 {
+		if m.lastEndKey != nil && len(m.cachedRegions[m.cachedIdx].EndKey()) > 0 &&
+			bytes.Compare(*m.lastEndKey, m.cachedRegions[m.cachedIdx].EndKey()) >= 0 {
 			// skip the cached region that is covered by the uncached region.
+			// (a cached region with an empty end key reaches +inf and is never covered.)
 			continue
 		}
 		m.appendKeyLocation(m.cachedRegions[m.cachedIdx])
